@@ -1,123 +1,111 @@
 import NauyacaVerif.Fs.Static
+import NauyacaVerif.Fs.Canon
 namespace Fs
 
-/-! ## canonical_path (repaired code): unquote, split, drop ""/".", fold ".." -/
-def hexv (c : Char) : Option Nat :=
-  if c.isDigit then some (c.toNat - 48)
-  else if 'a' ≤ c ∧ c ≤ 'f' then some (c.toNat - 87)
-  else if 'A' ≤ c ∧ c ≤ 'F' then some (c.toNat - 55) else none
+/-! ## `canonical_path` on driver strings: the provable code-point model of `Fs.Canon`, with the
+    segments turned into tree names -/
+def toName (s : Canon.Cps) : Name := String.ofList (s.map Char.ofNat)
+def ofName (n : Name) : Canon.Cps := n.toList.map Char.toNat
 
-/-- percent-decode to bytes (UTF-8 for literal characters) -/
-def unquoteBytes : List Char → List UInt8
-  | '%' :: a :: b :: rest =>
-    match hexv a, hexv b with
-    | some x, some y => (x * 16 + y).toUInt8 :: unquoteBytes rest
-    | _, _ => '%'.toNat.toUInt8 :: unquoteBytes (a :: b :: rest)
-  | c :: rest => (String.singleton c).toUTF8.toList ++ unquoteBytes rest
-  | [] => []
+def canonSegs (raw : Canon.Cps) : List Name × Bool :=
+  let sp := Canon.canonSegs raw
+  (sp.1.map toName, sp.2)
 
-/-- UTF-8 decode with errors="replace", one U+FFFD per maximal invalid prefix (simplified: per byte) -/
-partial def decodeReplace (b : List UInt8) : List Char :=
-  match b with
-  | [] => []
-  | x :: rest =>
-    let try_ (n : Nat) : Option (List Char) :=
-      if b.length < n then none else
-      match String.fromUTF8? (ByteArray.mk (b.take n).toArray) with
-      | some s => some (s.toList ++ decodeReplace (b.drop n))
-      | none => none
-    if x < 0x80 then Char.ofNat x.toNat :: decodeReplace rest
-    else match try_ 2 with
-      | some r => r
-      | none => match try_ 3 with
-        | some r => r
-        | none => match try_ 4 with
-          | some r => r
-          | none => '�' :: decodeReplace rest
+/-- `_get_mime_type`: `Path.suffix.lower() in (".gmi", ".gemini")`.  `Path.suffix` is empty for a
+    name whose only dot is the first or the last character. -/
+def suffixOf (name : List Char) : List Char :=
+  match name.reverse.span (· ≠ '.') with
+  | (_, []) => []                                   -- no dot
+  | (revExt, _ :: revStem) =>
+    if revStem.isEmpty ∨ revExt.isEmpty then [] else '.' :: revExt.reverse
 
-def unquote (s : String) : String := String.mk (decodeReplace (unquoteBytes s.toList))
+def lowerAscii (c : Char) : Char := if 'A' ≤ c ∧ c ≤ 'Z' then Char.ofNat (c.toNat + 32) else c
 
-def canonSegs (path : String) : List Name × Bool :=
-  let parts := (unquote path).splitOn "/"
-  let segs := parts.foldl (fun acc p =>
-    if p = "" ∨ p = "." then acc else if p = ".." then acc.dropLast else acc ++ [p]) []
-  let last := parts.getLast?.getD ""
-  (segs, !segs.isEmpty && (last = "" || last = "." || last = ".."))
+def mimeGem (name : Name) : Bool :=
+  let s := (suffixOf name.toList).map lowerAscii
+  s == ['.', 'g', 'm', 'i'] || s == ['.', 'g', 'e', 'm', 'i', 'n', 'i']
 
 /-! ## the symlink tree as an OS -/
-/-- kernel-style walk: follows every symlink, fails on missing / non-directory components and on loops -/
-def kwalk (t : Tree) : Nat → Path → List Name → Option (Path × Node)
-  | 0, _, _ => none
-  | fuel + 1, cur, [] => (t.lstat cur).map (fun n => (cur, n))
+inductive Walk where
+  | found (p : Path) (n : Node)
+  | enoent            -- missing component / not a directory
+  | eloop             -- too many levels of symbolic links
+  | tooLong           -- a component longer than NAME_MAX bytes looked up in an existing directory
+deriving Repr, DecidableEq
+
+def nameMax : Nat := 255
+
+/-- kernel-style walk: follows every symlink -/
+def kwalk (t : Tree) : Nat → Path → List Name → Walk
+  | 0, _, _ => .eloop
+  | _ + 1, cur, [] =>
+    match t.lstat cur with
+    | some n => .found cur n
+    | none => .enoent
   | fuel + 1, cur, name :: rest =>
     if name = "" ∨ name = "." then kwalk t fuel cur rest
     else if name = ".." then kwalk t fuel cur.dropLast rest
     else
       match t.lstat cur with
       | some .dir =>
-        let nxt := cur ++ [name]
-        match t.lstat nxt with
-        | some (.link target) =>
-          let comps := splitPath target
-          let start : Path := if target.startsWith "/" then [] else cur
-          kwalk t fuel start (comps ++ rest)
-        | some _ => kwalk t fuel nxt rest
-        | none => none
-      | _ => none
+        if name.utf8ByteSize > nameMax then .tooLong
+        else
+          let nxt := cur ++ [name]
+          match t.lstat nxt with
+          | some (.link target) =>
+            let comps := splitPath target
+            let start : Path := if target.startsWith "/" then [] else cur
+            kwalk t fuel start (comps ++ rest)
+          | some _ => kwalk t fuel nxt rest
+          | none => .enoent
+      | _ => .enoent
 
-def kstat (t : Tree) (p : Path) : Option (Path × Node) := kwalk t 300 [] p
+def kwalkTop (t : Tree) (p : Path) : Walk := kwalk t 300 [] p
+
+def kstat (t : Tree) (p : Path) : Option (Path × Node) :=
+  match kwalkTop t p with
+  | .found q n => some (q, n)
+  | _ => none
 
 def normpath (p : List Name) : Path :=
   p.foldl (fun acc n => if n = "" ∨ n = "." then acc else if n = ".." then acc.dropLast else acc ++ [n]) []
 
-/-- `Path.resolve()` (non-strict): realpath; on a loop the lexically normalised remainder, then the
-    `stat()` probe that turns ELOOP into an exception (none) -/
+def nameHasNul (n : Name) : Bool := n.toList.contains (Char.ofNat 0)
+
+/-- `Path.resolve()` (non-strict): an embedded NUL raises `ValueError`; otherwise realpath; on a
+    loop the lexically normalised remainder, then the `stat()` probe that turns ELOOP into an
+    exception (none) -/
 def resolveT (t : Tree) (p : Path) : Option Path :=
-  let (r, ok) := realpath t p
-  if ok then some r
+  if p.any nameHasNul then none
   else
-    let n := normpath r
-    -- probe: a loop anywhere on the normalised path raises; a merely missing path does not
-    if loopsOn t n then none else some n
-where
-  loopsOn (t : Tree) (n : Path) : Bool :=
-    -- ENOENT is not an error for resolve(); only ELOOP is.  Distinguish by walking with little fuel
-    -- versus structure: a path loops iff the walk runs out of fuel.
-    (kwalkFuelOut t 300 [] n)
-  kwalkFuelOut (t : Tree) : Nat → Path → List Name → Bool
-    | 0, _, _ => true
-    | fuel + 1, cur, [] => false
-    | fuel + 1, cur, name :: rest =>
-      if name = "" ∨ name = "." then kwalkFuelOut t fuel cur rest
-      else if name = ".." then kwalkFuelOut t fuel cur.dropLast rest
-      else match t.lstat cur with
-        | some .dir =>
-          let nxt := cur ++ [name]
-          match t.lstat nxt with
-          | some (.link target) =>
-            kwalkFuelOut t fuel (if target.startsWith "/" then [] else cur) (splitPath target ++ rest)
-          | some _ => kwalkFuelOut t fuel nxt rest
-          | none => false
-        | _ => false
+    let (r, ok) := realpath t p
+    if ok then some r
+    else
+      let n := normpath r
+      if kwalkTop t n = .eloop then none else some n
 
 structure FileMeta where
   id : Nat
   utf8 : Bool
-  big : Bool
+  size : Nat
 deriving Repr
+
+def metaOf (metas : List FileMeta) (id : Nat) : FileMeta :=
+  (metas.find? (·.id == id)).getD ⟨id, true, 0⟩
 
 def treeOS (t : Tree) (metas : List FileMeta) : OS where
   resolve := resolveT t
-  kind := fun p => match kstat t p with
-    | some (_, .file _) => .file
-    | some (_, .dir) => .dir
-    | some (_, .link _) => .other
-    | none => .missing
+  kind := fun p => match kwalkTop t p with
+    | .found _ (.file _) => .file
+    | .found _ .dir => .dir
+    | .found _ (.link _) => .other
+    | .tooLong => .error
+    | _ => .missing
   size := fun p => match kstat t p with
-    | some (_, .file id) => if (metas.find? (·.id == id)).any (·.big) then 1000000 else 10
+    | some (_, .file id) => (metaOf metas id).size
     | _ => 0
   readText := fun p => match kstat t p with
-    | some (_, .file id) => if (metas.find? (·.id == id)).all (·.utf8) then .ok id else .notUtf8
+    | some (_, .file id) => if (metaOf metas id).utf8 then .ok id else .notUtf8
     | _ => .ioError
   listing := fun p =>
     match kstat t p with
